@@ -159,6 +159,9 @@ def _resolvers():
         "ttl_nan": [("nan", ident(float("nan")))],
         "ttl_inf": [("inf", ident(float("inf")))],
         "ttl_neginf": [("-inf", ident(float("-inf")))],
+        "ttl_bool": [("True", ident(True)), ("False", ident(False))],
+        "ttl_str": [("'300'", ident("300")), ("'inf'", ident("inf"))],
+        "ttl_none": [("None", ident(None))],
         "none": [("none", lambda TI, AU: (lambda tok: None))],
         "unavailable": [("ra9", raises(lambda tok, AU: AU("mapping store unreachable", retry_after=9))),
                         ("default", raises(lambda tok, AU: AU())),
@@ -185,6 +188,12 @@ def _needles(tok: str | None, needle: str | None) -> list[bytes]:
             for enc in (s.encode("utf-8", "surrogatepass"), json.dumps(s).encode()[1:-1], s.encode("unicode_escape")):
                 if enc and enc not in out:
                     out.append(enc)
+    if needle:
+        # partial disclosure: any 10-character window of the per-request credential core (e.g. a "helpful" token[:12])
+        nb = needle.encode()
+        for i in range(0, len(nb) - 9):
+            if nb[i:i + 10] not in out:
+                out.append(nb[i:i + 10])
     return out
 
 
